@@ -14,6 +14,10 @@ A's ListProxy itself, copy(), +); the observation is of B (model: Secrets.v `sop
 sub-tree keeps its own key file, what it inherits changes).  Key-file NAMES may contain `~` (ids 6, 7; HOME is
 private to the check process): the file must be read and created at the expanded location only, and an existing
 key file is compared byte for byte before and after dump and load.
+Every case also takes the CONSTRUCTOR route for the saved tree: schema(key_filename=K, **tree) and
+schema(**tree, key_filename=K) (the root's own secrets as plaintext -- a SecureField keyword is an assignment --,
+sub-configuration maps and lists of maps as saved), and Type(**tree) for config types with a class-level key file:
+same plaintexts, only key files the new configuration names are touched (no ~/.cincokey), keyword order irrelevant.
 
 Observed (never ciphertext bytes: os.urandom stays real, the byte layer is C08's):
   * the key file in force at every secret field (KeyFile object actually used: cfg._keyfile.filename);
@@ -352,7 +356,7 @@ def generate(rng, tier):
                     k += 1
                     cases.append(two_tree_case(det, desc, "matrix:move:" + route[0] + (":%d" % route[1]), fmt, ka=3, kb=kb,
                                                routes=[route], own=own))
-    nrand = 1200 if tier == "quick" else 12000
+    nrand = 1000 if tier == "quick" else 12000
     for i in range(nrand):
         if i % 4 == 3:
             desc = random_desc(rng)
@@ -1024,9 +1028,71 @@ def impl(c):
             else:
                 rt = "broken"
             st["rt"] = rt
+            # ---- the constructor route: schema(key_filename=K, **tree) and schema(**tree, key_filename=K).
+            # A SecureField keyword is an assignment (an encrypted map is refused there), so the root's own
+            # secrets go in as plaintext; maps under sub-configuration keys and lists of maps are loaded.
+            tree = root.to_tree()
+            kwargs = dict(tree)
+            for name, _m in c["desc"]["secs"]:
+                kwargs[name] = root._data.get(name) or None
+            for name, kind, _m in c["desc"].get("cont", ()):
+                v = root._data.get(name)
+                if v is not None:
+                    kwargs[name] = list(v) if kind == "slist" else dict(v)
+            kfname = paths[c["root2"]] if c["root2"] is not None else None
+            ctor_obs = []
+            st["ctor"] = []
+            for order in ("first", "last"):
+                for p in real.values():
+                    if p not in before2 and os.path.exists(p):
+                        os.unlink(p)          # back to the file system the dump left behind
+                _AUDIT["events"] = []
+                try:
+                    if kfname is None:
+                        b = schema(**kwargs)
+                    elif order == "first":
+                        b = schema(key_filename=kfname, **kwargs)
+                    else:
+                        b = schema(**kwargs, key_filename=kfname)
+                    got = _plain(b, c["desc"])
+                    exc = None
+                except Exception as e:  # noqa
+                    got, exc = None, type(e).__name__
+                ev = list(_AUDIT["events"])
+                touched = {p for p, _ in ev}
+                if got is not None and got == want_plain:
+                    r3, c3 = _effects(ev, before2)
+                    o = ("same", (sorted(ids.get(p, -1) for p in r3), sorted(ids.get(p, -1) for p in c3)))
+                else:
+                    o = "broken"
+                ctor_obs.append(o)
+                st["ctor"].append({"order": order, "obs": o, "exc": exc, "touched": touched})
+            # a config type with a class-level key file, built on its own from its part of the tree
+            st["ctor_ct"] = []
+            for name, kind, cd in c["desc"]["ch"]:
+                sub = root._data.get(name)
+                if kind == "sub" and cd["ct"] is not None and isinstance(sub, ConfigType) and not f34:
+                    kw = dict(tree[name])
+                    for sn, _m in cd["secs"]:
+                        kw[sn] = sub._data.get(sn) or None
+                    for sn, sk, _m in cd.get("cont", ()):
+                        v = sub._data.get(sn)
+                        if v is not None:
+                            kw[sn] = list(v) if sk == "slist" else dict(v)
+                    _AUDIT["events"] = []
+                    try:
+                        b = type(sub)(**kw)
+                        ok = _plain(b, cd) == _plain(sub, cd)
+                        exc = None
+                    except Exception as e:  # noqa
+                        ok, exc = False, type(e).__name__
+                    allowed_ct = {real[n["ct"]] for _p, n in _all_desc(cd) if n["ct"] is not None}
+                    st["ctor_ct"].append({"name": name, "ok": ok, "exc": exc,
+                                          "stray": {p for p, _ in _AUDIT["events"]} - allowed_ct})
             st["rewritten"] = sorted(os.path.basename(p) for p, b in content.items()
                                      if not os.path.exists(p) or open(p, "rb").read() != b)
-            return (kfs, (sorted(ids.get(p, -1) for p in read), sorted(ids.get(p, -1) for p in created)), f34, shape, rt)
+            return (kfs, (sorted(ids.get(p, -1) for p in read), sorted(ids.get(p, -1) for p in created)), f34, shape, rt,
+                    ctor_obs[0])
         except Exception as e:  # noqa
             st["exc"] = "%s: %s" % (type(e).__name__, e)
             return ("exc", type(e).__name__)
@@ -1086,6 +1152,22 @@ def oracle(c, obs):
     if "expected_load" in st and st["touched_load"] != st["expected_load"] and st["rt"] != "broken":
         bad.append("key files touched by the load %s differ from the key files of the loaded secrets %s" % (
             sorted(map(base, st["touched_load"])), sorted(map(base, st["expected_load"]))))
+    for r in st.get("ctor", ()):
+        label = "schema(key_filename=K, **tree)" if r["order"] == "first" else "schema(**tree, key_filename=K)"
+        if not r["touched"] <= st["allowed_load"]:
+            bad.append("constructor route %s touched a key file that the new configuration does not name: %s" % (
+                label, sorted(map(base, r["touched"] - st["allowed_load"]))))
+        if r["obs"] == "broken" and st["same_root_kf"] and st["plaintexts"]:
+            bad.append("round trip: constructor route %s with the same root key file does not give back the plaintexts (%s)" % (
+                label, r["exc"] or "values differ"))
+    if len(st.get("ctor", ())) == 2 and st["ctor"][0]["obs"] != st["ctor"][1]["obs"]:
+        bad.append("constructor route: the position of the key_filename keyword changes the result: %r vs %r" % (
+            st["ctor"][0]["obs"], st["ctor"][1]["obs"]))
+    for r in st.get("ctor_ct", ()):
+        if r["stray"]:
+            bad.append("constructor route: config type %s(**tree) touched a key file it does not name: %s" % (r["name"], sorted(map(base, r["stray"]))))
+        if not r["ok"]:
+            bad.append("constructor route: config type %s(**tree) does not give back the plaintexts (%s)" % (r["name"], r["exc"] or "values differ"))
     if st["rt"] == "broken" and st["same_root_kf"] and st["plaintexts"]:
         bad.append("round trip: loading the output in a new configuration with the same root key file does not give back the plaintexts (%s)" % st.get("load_exc", "values differ"))
     return bad
@@ -1140,7 +1222,10 @@ def tags(c, obs):
                 t.add("assign-after-dump")
     if st.get("f34"):
         t.add("F34-region")
-    if isinstance(obs, tuple) and len(obs) == 5:
+    if st.get("ctor_ct"):
+        t.add("ctor:config-type")
+    if isinstance(obs, tuple) and len(obs) == 6:
+        t.add("ctor:" + (obs[5] if isinstance(obs[5], str) else obs[5][0]))
         t.add("rt:" + (obs[4] if isinstance(obs[4], str) else obs[4][0]))
         if 0 in obs[1][0] or 0 in obs[1][1]:
             t.add("default-keyfile-used")
